@@ -47,7 +47,7 @@ Definition m_append (i : mindex) (unp unc : N) : N * mindex :=
   let cbase := blocks_size (recs s) in
   let ubase := uncomp_total (recs s) in
   let add := vli_size unp + vli_size unc in
-  if VLI_MAX <? ubase + unc then (9, i)
+  if VLI_MAX <? uncompressed_size i + unc then (9, i)      (* the total over all Streams *)
   else if UNPADDED_MAX <? cbase + unp then (9, i)
   else
     let fs1 := file_size_before_last i + 24 + spad s + ceil4 (cbase + unp) in
